@@ -24,7 +24,7 @@ def classify(prop, v, **ctx):
     v.setdefault("finding", None)
     if v.get("finding"):
         return v["finding"]
-    generic = (history_dependent_rounding_fold, inconsistent_assumptions_after_history, divisor_folded_to_zero, python_float_division_by_zero, inverse_trig_of_constant_generic, trig_of_inverse_trig_overflow, saturated_sigmoid_linearisation, float64_overflow_counterfactual)
+    generic = (history_dependent_rounding_fold, inconsistent_assumptions_after_history, imaginary_unit_in_generated_code, divisor_folded_to_zero, python_float_division_by_zero, inverse_trig_of_constant_generic, trig_of_inverse_trig_overflow, saturated_sigmoid_linearisation, float64_overflow_counterfactual)
     for fn in MATCHERS.get(prop, []) + list(generic):
         try:
             fid = fn(v, prop=prop, **ctx) if fn in generic else fn(v, **ctx)
@@ -44,6 +44,20 @@ def divisor_folded_to_zero(v, prop="", text="", **kw):
     exc = (v.get("detail") or {}).get("exc") or ""
     if "ComplexInfinity" in exc or re.search(r"(?<![\w.])zoo(?![\w.])", exc):
         return f"{prop}-divisor-folded-to-zero-becomes-zoo"
+    return None
+
+
+def imaginary_unit_in_generated_code(v, prop="", text="", ref=None, **kw):
+    """A constant sub-expression that sympy evaluates over the complex numbers, e.g. (-floor(0.1)) ** 0.5 = sqrt(-1*0) ->
+    0*(1.0*I), leaves the imaginary unit I in the generated text although the real value (0) is fine: NameError in Python,
+    'I undeclared' in C."""
+    if prop not in ("C01", "C02", "C03"):
+        return None
+    d = v.get("detail") or {}
+    msg = (d.get("exc") or "") + " ".join(str(e) for e in (d.get("errors") or []))
+    hit = "name 'I' is not defined" in msg or re.search(r"[‘'`]I[’'`] undeclared|undeclared identifier 'I'", msg)
+    if hit and not (ref is not None and ("I" in ref.assigns or "I" in ref.states or "I" in ref.params)):
+        return f"{prop}-imaginary-unit-from-a-constant-subexpression"
     return None
 
 
